@@ -54,7 +54,7 @@ def gen_service_program(rng: Any, *, crash: bool = False) -> dict[str, Any]:
         elif r < 0.8 and n_services < 4:
             n_services += 1
             action = rng.choice(ACTIONS)
-            spec = {"action": action, "cleanup": rng.choice([0, 0, 0.5, 1, 2]), "action_delay": rng.choice([0, 0.5]) if action == "async_callable" else 0,
+            spec = {"action": action, "cleanup": rng.choice([0, 0, 0.5, 1, 2]) if rng.random() < 0.95 else rng.choice([61, 90.5, 700]), "action_delay": rng.choice([0, 0.5]) if action == "async_callable" else 0,
                     "action_starts_helper": action == "async_callable" and rng.random() < 0.4,
                     "ends_by_itself": None, "started_value": rng.random() < 0.5, "own_teardown": rng.random() < 0.4,
                     "spawn_via": rng.choice(["method", "shortcut"]),
@@ -703,9 +703,12 @@ def gen_factory_program(rng: Any) -> dict[str, Any]:
     handler = rng.choice([None, "true", "true", "false", "none", "one", "zero", "selective"])
     swallow = handler is not None and bool(HANDLER_VERDICTS[handler])
     n = rng.randint(3, 14)
+    many = rng.random() < 0.04
+    if many:
+        n = rng.choice([40, 70, 120])  # a busy factory: dozens of tasks, most of them still running when the owner is left
     for _ in range(n):
         r = rng.random()
-        if r < 0.45:
+        if r < (0.8 if many else 0.45):
             tid = fresh()
             outcome = rng.choice(["return", "return", "return", "raise", "teardown_raise"])
             if outcome in ("raise", "teardown_raise") and not swallow:
@@ -786,10 +789,15 @@ class FactoryRun:
         run = self
         tid = spec["tid"]
 
+        called_in: list[Any] = []
+
         async def body(task_status: Any = None) -> None:
             ctx = current_context()
             par = ctx.parent
             from asphalt.core import get_resource_nowait as _grn
+
+            if called_in:
+                run.log("task-called", tid, in_own_context=bool(called_in[0] is ctx))
 
             late_factory_visible = _grn(ST0, "after_factory", optional=True) is not None
             run.log("task-start", tid, late_factory_visible=late_factory_visible, parent_parent_is_owner=bool(par is not None and par.parent is run.owner),
@@ -874,6 +882,21 @@ class FactoryRun:
         else:
             async def func() -> None:  # type: ignore[misc]
                 await body()
+        if spec.get("func_form") == "lambda":
+            # `lambda: work(argument)`: the argument expressions are evaluated when the library calls the lambda - in the task's
+            # own context, like everything else the task does
+            plain = func
+
+            def func(**kw: Any) -> Any:  # type: ignore[misc]  # noqa: F811
+                try:
+                    called_in.append(current_context())
+                except Exception as e:
+                    called_in.append(e)
+                return plain(**kw)
+
+            if takes:
+                return lambda *, task_status: func(task_status=task_status)
+            return lambda: func()
         return wrap_form(func, spec.get("func_form", "function"), takes)
 
     async def spawn(self, spec: dict[str, Any], where: str, spawner_ctx: Any) -> None:
@@ -1191,6 +1214,12 @@ def check_factory(run: FactoryRun) -> tuple[list[dict[str, Any]], dict[str, int]
     fatal = [tid for tid, e in end.items() if e["how"] == "raise" and not swallow]
     fatal_seq = min((end[tid]["seq"] for tid in fatal), default=None)
     # ---- context of every task
+    for e in ev:
+        if e["kind"] == "task-called":
+            inc("task_callables_whose_synchronous_part_observed_the_current_context")
+            if not e["in_own_context"]:
+                bad("factory-task-context", f"task {e['actor']}: the synchronous part of its callable (the argument expressions of `lambda: work(...)`) ran in another "
+                                            f"context than the task itself")
     for tid, e in start.items():
         inc("tasks_started")
         where = spawn_call[tid]["where"] if tid in spawn_call else "?"
